@@ -13,8 +13,8 @@
 using namespace SimTK;
 
 // ---------------------------------------------------------------- governance kinds for the governed body
-enum Gov { GFree, GSteady, GSinP, GSinV, GSinA, GCustomP, GCustomV, GDefLockP, GDefLockV, GDefLockA, NGOV };
-static const char* govName(int g) { static const char* n[] = {"free", "Steady", "Sinusoid(P)", "Sinusoid(V)", "Sinusoid(A)", "Custom(P)", "Custom(V)", "lockByDefault(P)", "lockByDefault(V)", "lockByDefault(A)"}; return n[g]; }
+enum Gov { GFree, GSteady, GSinP, GSinV, GSinA, GCustomP, GCustomV, GDefLockP, GDefLockV, GDefLockA, GQuatP, NGOV };
+static const char* govName(int g) { static const char* n[] = {"free", "Steady", "Sinusoid(P)", "Sinusoid(V)", "Sinusoid(A)", "Custom(P)", "Custom(V)", "lockByDefault(P)", "lockByDefault(V)", "lockByDefault(A)", "CustomQuaternion(P)"}; return n[g]; }
 static const Real SA = 0.35, SW = 1.7, SP = 0.4;    // sinusoid amplitude, rate, phase
 static const Real STEADY = 0.7;
 
@@ -31,6 +31,31 @@ public:
     void calcPrescribedVelocity(const State& s, int nu, Real* u) const override { Real t = s.getTime(); for (int i = 0; i < nu; ++i) u[i] = c0(i) + c1(i) * t + c2(i) * t * t; }
     void calcPrescribedVelocityDot(const State& s, int nu, Real* ud) const override { Real t = s.getTime(); for (int i = 0; i < nu; ++i) ud[i] = c1(i) + 2 * c2(i) * t; }
     Motion::Level level;
+};
+
+// position-level motion for quaternion mobilizers: rotation about a fixed axis A by theta(t) = T0 + T1 t + T2 t^2/2 (unit
+// quaternion trajectory with analytic first and second derivatives); translational q's (Free) follow PolyMotion's polynomials
+static const Vec3 QA = Vec3(0.36, -0.48, 0.8);      // unit axis
+static const Real QT0 = 0.5, QT1 = 0.9, QT2 = -0.7;
+class QuatMotion : public Motion::Custom::Implementation {
+public:
+    Implementation* clone() const override { return new QuatMotion(*this); }
+    Motion::Level getLevel(const State&) const override { return Motion::Position; }
+    static void th(Real t, Real& a, Real& ad, Real& add) { a = QT0 + QT1 * t + 0.5 * QT2 * t * t; ad = QT1 + QT2 * t; add = QT2; }
+    void calcPrescribedPosition(const State& s, int nq, Real* q) const override {
+        Real a, ad, add; th(s.getTime(), a, ad, add); q[0] = std::cos(a / 2); for (int i = 0; i < 3; ++i) q[1 + i] = QA[i] * std::sin(a / 2);
+        Real t = s.getTime(); for (int i = 4; i < nq; ++i) q[i] = PolyMotion::c0(i) + PolyMotion::c1(i) * t + PolyMotion::c2(i) * t * t;
+    }
+    void calcPrescribedPositionDot(const State& s, int nq, Real* qd) const override {
+        Real a, ad, add; th(s.getTime(), a, ad, add); qd[0] = -0.5 * ad * std::sin(a / 2); for (int i = 0; i < 3; ++i) qd[1 + i] = 0.5 * ad * QA[i] * std::cos(a / 2);
+        Real t = s.getTime(); for (int i = 4; i < nq; ++i) qd[i] = PolyMotion::c1(i) + 2 * PolyMotion::c2(i) * t;
+    }
+    void calcPrescribedPositionDotDot(const State& s, int nq, Real* qdd) const override {
+        Real a, ad, add; th(s.getTime(), a, ad, add);
+        qdd[0] = -0.5 * add * std::sin(a / 2) - 0.25 * ad * ad * std::cos(a / 2);
+        for (int i = 0; i < 3; ++i) qdd[1 + i] = QA[i] * (0.5 * add * std::cos(a / 2) - 0.25 * ad * ad * std::sin(a / 2));
+        for (int i = 4; i < nq; ++i) qdd[i] = 2 * PolyMotion::c2(i);
+    }
 };
 
 struct Sys {
@@ -62,6 +87,7 @@ static Sys buildSys(int kind, int dir, int role, bool euler, int gov, bool twin)
             case GSinA: S.motion = Motion::Sinusoid(gb, Motion::Acceleration, SA, SW, SP); S.hasMotion = true; break;
             case GCustomP: S.motion = Motion::Custom(gb, new PolyMotion(Motion::Position)); S.hasMotion = true; break;
             case GCustomV: S.motion = Motion::Custom(gb, new PolyMotion(Motion::Velocity)); S.hasMotion = true; break;
+            case GQuatP: S.motion = Motion::Custom(gb, new QuatMotion()); S.hasMotion = true; break;
             case GDefLockP: gb.lockByDefault(Motion::Position); break;
             case GDefLockV: gb.lockByDefault(Motion::Velocity); break;
             case GDefLockA: gb.lockByDefault(Motion::Acceleration); break;
@@ -78,17 +104,18 @@ struct GovModel {
     std::vector<double> lockVal;     // q (P) or u (V) captured when locked
     bool motionEnabled = false;
     int gov = GFree;
+    double steadyRate = 0.7;
     // active governance level: 0 P, 1 V, 2 A, -1 none ; source 0 lock, 1 motion
     int activeLevel() const {
         if (lockLevel >= 0) return lockLevel;
-        if (motionEnabled) switch (gov) { case GSteady: case GSinV: case GCustomV: return 1; case GSinP: case GCustomP: return 0; case GSinA: return 2; default: return -1; }
+        if (motionEnabled) switch (gov) { case GSteady: case GSinV: case GCustomV: return 1; case GSinP: case GCustomP: case GQuatP: return 0; case GSinA: return 2; default: return -1; }
         return -1;
     }
     bool byLock() const { return lockLevel >= 0; }
 };
 
-enum OpK { OLockP, OLockV, OLockA, OLockAtP, OUnlock, OMotionDisable, OMotionEnable, OSetQ, OSetU, OSetTime, OPrescribe, ORealizeAcc, OSetQOther, NOPS };
-static const char* opName(int o) { static const char* n[] = {"lock(P)", "lock(V)", "lock(A)", "lockAt(vec,P)", "unlock", "motion.disable", "motion.enable", "setQ(governed)", "setU(governed)", "setTime(0.3)", "prescribe", "realize(Acceleration)", "setQ(other)"}; return n[o]; }
+enum OpK { OLockP, OLockV, OLockA, OLockAtP, OUnlock, OMotionDisable, OMotionEnable, OSetQ, OSetU, OSetTime, OPrescribe, ORealizeAcc, OSetQOther, OSetRate, NOPS };
+static const char* opName(int o) { static const char* n[] = {"lock(P)", "lock(V)", "lock(A)", "lockAt(vec,P)", "unlock", "motion.disable", "motion.enable", "setQ(governed)", "setU(governed)", "setTime(0.3)", "prescribe", "realize(Acceleration)", "setQ(other)", "Steady.setRate(1.3)"}; return n[o]; }
 
 struct Case { int kind, dir, role, euler, gov; std::string str() const { return std::string(mb::kindName(kind)) + (dir ? "/rev" : "/fwd") + (role ? "/tip" : "/base") + (euler ? "/euler" : "/quat") + " gov=" + govName(gov); } };
 
@@ -130,6 +157,7 @@ static Result runHistory(verif::Run& run, const Case& c, const std::vector<int>&
                 case OSetTime: s.setTime(0.3); break;
                 case OPrescribe: M.system.realize(s, Stage::Time); M.system.prescribe(s); break;
                 case ORealizeAcc: M.system.realize(s, Stage::Acceleration); break;
+                case OSetRate: if (c.gov == GSteady) { Motion::Steady::downcast(S.motion).setRate(s, 1.3); G.steadyRate = 1.3; } break;
                 case OSetQOther: mb::setBodyQ(M, s, 1 - S.gi, 1, 1); mb::setBodyU(M, s, 1 - S.gi, 1, 1); break;
             }
         }
@@ -138,7 +166,7 @@ static Result runHistory(verif::Run& run, const Case& c, const std::vector<int>&
     }
     // documented immediate effects of lock on the state (checked through the final state below as well)
     const int level = G.activeLevel();
-    if (level == 0 && !G.byLock() && mb::kindHasQuaternion(c.kind) && !c.euler) { run.count("skipped:position-level-motion-on-quaternion"); R.key = "rejected"; return R; }
+    if (level == 0 && !G.byLock() && mb::kindHasQuaternion(c.kind) && !c.euler && c.gov != GQuatP) { run.count("skipped:position-level-motion-on-quaternion"); R.key = "rejected"; return R; }
     // final: prescribe, then realize
     try {
         M.system.realize(s, Stage::Time);
@@ -165,12 +193,28 @@ static Result runHistory(verif::Run& run, const Case& c, const std::vector<int>&
         } else {
             for (int i = 0; i < nu; ++i) if (!near(ud[i], 0)) fail("locked-A-udot-not-zero", "udot[" + std::to_string(i) + "]=" + verif::fmtd(ud[i]));
         }
+    } else if (level == 0 && c.gov == GQuatP) {
+        // unit-quaternion trajectory: q, qdot, qdotdot as prescribed; u = A*theta' (angular velocity about the fixed axis, same in F and M)
+        // and udot = A*theta'' for the rotational speeds; translational q's (Free) follow the polynomials with u = qdot
+        QuatMotion qm; std::vector<Real> pq(nq), pqd(nq), pqdd(nq);
+        qm.calcPrescribedPosition(s, nq, pq.data()); qm.calcPrescribedPositionDot(s, nq, pqd.data()); qm.calcPrescribedPositionDotDot(s, nq, pqdd.data());
+        const Vector qd = gb.getQDotAsVector(s), qdd = gb.getQDotDotAsVector(s);
+        Real a, ad, add; QuatMotion::th(t, a, ad, add);
+        for (int i = 0; i < nq; ++i) {
+            if (!near(q[i], pq[i])) fail("prescribed-q-wrong", "q[" + std::to_string(i) + "]=" + verif::fmtd(q[i]) + " prescribed " + verif::fmtd(pq[i]));
+            if (std::abs(qd[i] - pqd[i]) > 1e-11) fail("prescribed-qdot-wrong", "qdot[" + std::to_string(i) + "]=" + verif::fmtd(qd[i]) + " prescribed " + verif::fmtd(pqd[i]));
+            if (std::abs(qdd[i] - pqdd[i]) > 1e-10) fail("prescribed-qdotdot-wrong", "qdotdot[" + std::to_string(i) + "]=" + verif::fmtd(qdd[i]) + " prescribed " + verif::fmtd(pqdd[i]));
+        }
+        for (int i = 0; i < 3 && i < nu; ++i) {
+            if (std::abs(u[i] - QA[i] * ad) > 1e-11) fail("prescribed-angular-velocity-wrong", "u[" + std::to_string(i) + "]=" + verif::fmtd(u[i]) + " expected " + verif::fmtd(QA[i] * ad));
+            if (std::abs(ud[i] - QA[i] * add) > 1e-10) fail("prescribed-angular-acceleration-wrong", "udot[" + std::to_string(i) + "]=" + verif::fmtd(ud[i]) + " expected " + verif::fmtd(QA[i] * add));
+        }
     } else if (level >= 0) {
         const Real sn = SA * std::sin(SW * t + SP), cs = SA * SW * std::cos(SW * t + SP), sn2 = -SA * SW * SW * std::sin(SW * t + SP);
         const Vector qd = gb.getQDotAsVector(s), qdd = gb.getQDotDotAsVector(s);
         for (int i = 0; i < (level == 0 ? nq : nu); ++i) {
             Real p0, p1, p2;   // prescribed value, first and second derivative at the prescription level
-            if (c.gov == GSteady) { p0 = STEADY; p1 = 0; p2 = 0; }
+            if (c.gov == GSteady) { p0 = G.steadyRate; p1 = 0; p2 = 0; }
             else if (c.gov == GCustomP || c.gov == GCustomV) { p0 = PolyMotion::c0(i) + PolyMotion::c1(i) * t + PolyMotion::c2(i) * t * t; p1 = PolyMotion::c1(i) + 2 * PolyMotion::c2(i) * t; p2 = 2 * PolyMotion::c2(i); }
             else { p0 = sn; p1 = cs; p2 = sn2; }
             if (level == 0) {
@@ -239,8 +283,9 @@ int main(int argc, char** argv) {
     std::vector<Case> cases;
     for (int k : kinds) for (int dir = 0; dir < 2; ++dir) for (int role = 0; role < 2; ++role) for (int eu = 0; eu < 2; ++eu) for (int g = 0; g < NGOV; ++g) {
         if (dir && !mb::kindReversible(k)) continue;
-        if (dir && !th && g % 3 != 0) continue;                      // quick: reversed only with every third governance kind
+        if (dir && !th && g % 3 != 0 && g != GQuatP) continue;                      // quick: reversed only with every third governance kind
         if (eu && !mb::kindHasQuaternion(k)) continue;               // the option only matters for quaternion kinds
+        if (g == GQuatP && (eu || !(k == mb::KBall || k == mb::KFree))) continue;   // unit-quaternion trajectory: Ball and Free in quaternion mode
         cases.push_back({k, dir, role, eu, g});
     }
     std::vector<std::vector<int>> hists = {{}};
